@@ -211,14 +211,26 @@ def run(ctx):
     if not settle(ctx, jobs, par_tlc(ctx, jobs, width=ctx.pick(4, 3))):
         return
     behs = os.path.join(ctx.tmp, "c17.behs")
-    n1 = share(ctx, one, behs, ctx.pick(0.04, 0.12), boost=4.0)
+    n1 = share(ctx, one, behs, ctx.pick(0.03, 0.12), boost=4.0)
     n2 = share(ctx, two, behs, ctx.pick(0.02, 0.06), boost=2.0)
-    n3 = share(ctx, info, behs, ctx.pick(0.12, 0.15), boost=2.0, need='"code":10')
+    n3 = share(ctx, info, behs, ctx.pick(0.08, 0.15), boost=2.0, need='"code":10')
     n2 += share(ctx, info2, behs, ctx.pick(0.015, 0.2), boost=2.0, pred=lambda l: '"code":10' in l or '"ev":"fl"' in l)
     n4 = share(ctx, aef, behs, ctx.pick(0.5, 1.0))
     n4 += share(ctx, flf, behs, ctx.pick(0.06, 0.12), boost=3.0, need='"ev":"fl"')
     n5 = share(ctx, hst, behs, ctx.pick(0.25, 0.25))
     n5 += share(ctx, hst2, behs, ctx.pick(0.08, 0.3))
+
+    # (the replay through the real HTTPProxy - step 4 - runs as a second `go test` process at the same time)
+    px = os.path.join(ctx.tmp, "c17.proxy")
+    share(ctx, one, px, ctx.pick(0.02, 0.03), boost=4.0)
+    share(ctx, info, px, ctx.pick(0.08, 0.15), boost=2.0, need='"code":10')
+    share(ctx, aef, px, ctx.pick(0.3, 0.5))
+    share(ctx, flf, px, ctx.pick(0.03, 0.05), boost=3.0, need='"ev":"fl"')
+    share(ctx, hst, px, ctx.pick(0.15, 0.15))
+    from concurrent.futures import ThreadPoolExecutor
+    pxex = ThreadPoolExecutor(max_workers=1)
+    pxfut = pxex.submit(run_proxy, ctx, px, "C17 through HTTPProxy", timeout=ctx.pick(300, 600))
+    pxex.shutdown(wait=False)
 
     # 3. replay against the real handler, concurrently, under the race detector
     r = run_gzip(ctx, behs, "C17 replay", timeout=ctx.pick(400, 850))
@@ -236,14 +248,8 @@ def run(ctx):
     races(ctx, r, "gzip")
     plumbing(ctx, r, "C17 replay")
 
-    # 4. through the real HTTPProxy (upstream performs the script)
-    px = os.path.join(ctx.tmp, "c17.proxy")
-    share(ctx, one, px, ctx.pick(0.02, 0.03), boost=4.0)
-    share(ctx, info, px, ctx.pick(0.08, 0.15), boost=2.0, need='"code":10')
-    share(ctx, aef, px, ctx.pick(0.3, 0.5))
-    share(ctx, flf, px, ctx.pick(0.03, 0.05), boost=3.0, need='"ev":"fl"')
-    share(ctx, hst, px, ctx.pick(0.15, 0.15))
-    r = run_proxy(ctx, px, "C17 through HTTPProxy", timeout=ctx.pick(300, 600))
+    # 4. through the real HTTPProxy (upstream performs the script); started before step 3, collected here
+    r = pxfut.result()
     if r is None:
         return
     s = r.summary
